@@ -888,7 +888,7 @@ def transform_etas_john_draper(model: Model, list_of_etas: Optional[Union[list[s
 
 
 def _transform_etas(model, transformation, etas):
-    etas_assignment, etas_subs = _create_new_etas(etas, transformation.name)
+    etas_assignment, etas_subs = _create_new_etas(model, etas, transformation.name)
     parameters, thetas = _create_new_thetas(model, transformation.theta_type, len(etas))
     transformation.apply(etas_assignment, thetas)
     statements_new = transformation.assignments
@@ -897,7 +897,7 @@ def _transform_etas(model, transformation, etas):
     return model
 
 
-def _create_new_etas(etas_original, transformation):
+def _create_new_etas(model, etas_original, transformation):
     etas_subs = {}
     etas_assignment = {}
     if transformation == 'boxcox':
@@ -908,9 +908,19 @@ def _create_new_etas(etas_original, transformation):
         eta_new = 'etad'
     else:
         eta_new = 'etan'
+    # NOTE: Continue the numbering after transformed etas that the model already has
+    used = [
+        int(m.group(1))
+        for m in (
+            re.fullmatch(rf'{eta_new.upper()}(\d+)', symbol.name)
+            for symbol in model.statements.free_symbols
+        )
+        if m
+    ]
+    offset = max(used, default=0)
     for i, eta in enumerate(etas_original, 1):
-        etas_subs[sympy.Symbol(eta)] = sympy.Symbol(f'{eta_new.upper()}{i}')
-        etas_assignment[sympy.Symbol(f'{eta_new}{i}')] = sympy.Symbol(f'{eta_new.upper()}{i}')
+        etas_subs[sympy.Symbol(eta)] = sympy.Symbol(f'{eta_new.upper()}{offset + i}')
+        etas_assignment[sympy.Symbol(f'{eta_new}{i}')] = sympy.Symbol(f'{eta_new.upper()}{offset + i}')
         etas_assignment[sympy.Symbol(f'eta{i}')] = sympy.Symbol(eta)
 
     return etas_assignment, etas_subs
